@@ -331,6 +331,24 @@ def unit_wrappers(S):
         if cls not in ("TransformAction", "ClipAction", "RescaleAction"):
             S.fact(f"stack-induction/{name}/action-space-inherited", same(E0.action_space, E0.env.action_space), function=f"lerax.wrapper:{cls}.action_space",
                    replay=C13._space_replay(cls, "action_space"), what="declared action space = the wrapped object's, so sampled actions are accepted by the wrapped object")
+    # action wrappers: every member of the DECLARED action space is forwarded as a member of the wrapped object's action space (so sampled actions are accepted):
+    # rescale_box on arbitrary finite ordered bounds, the inverse map RescaleAction uses; ClipAction by clipping
+    from lerax.wrapper.utils import rescale_box
+    from lvc.extract import fork_paths, eval_traced
+    ctx3 = Ctx()
+    low, high, mn, mx, x = [sym(ctx3, nm, sd((2,), f32)) for nm in ("low", "high", "min", "max", "x")]
+    with extract.patched((jnp, "isfinite", lambda a: np.ones(jnp.shape(a), bool))):
+        paths = [p for p in fork_paths(lambda lo_, hi_, mn_, mx_, x_: rescale_box(Box(lo_, hi_), mn_, mx_).backward(x_), (low, high, mn, mx, x), raises=(AssertionError,)) if p[0] is not None]
+    if len(paths) == 1:
+        conds, bx = eval_traced(ctx3, paths[0][0], paths[0][1])
+        pc = [ir.seq(c_.scalar(), d_) for c_, d_ in zip(conds, paths[0][2])]
+        strict = [z3.And(low.at((i,)) < high.at((i,)), mn.at((i,)) < mx.at((i,))) for i in range(2)]
+        member = [z3.And(x.at((i,)) >= mn.at((i,)), x.at((i,)) <= mx.at((i,))) for i in range(2)]
+        S.prove("RescaleAction/declared-actions-forwarded-into-the-inner-space", ctx3, sand(*[z3.And(ir.zreal(bx.at((i,))) >= ir.zreal(low.at((i,))), ir.zreal(bx.at((i,))) <= ir.zreal(high.at((i,)))) for i in range(2)]),
+                hyps=pc + strict + member, function="lerax.wrapper.utils:rescale_box", nl_budget_ms=5000, replay=C13.native_rescale_replay,
+                what="for all finite low < high, min < max: every x in [min, max] (the space RescaleAction declares) is forwarded to backward(x) in [low, high] (the wrapped action space)")
+    else:
+        S.fact("RescaleAction/declared-actions-forwarded-into-the-inner-space", False, function="lerax.wrapper.utils:rescale_box", what="rescale_box has exactly one accepting path", detail=len(paths))
     wf = W.FlattenObservation(inner0)
     S.fact("FlattenObservation/shape", tuple(wf.observation_space.shape) == (inner0.observation_space.flat_size,), function=fn + ":FlattenObservation", what="the flattened observation has flat_size entries, the advertised shape")
 
